@@ -4,4 +4,5 @@ From GV Require Import Base.Grammar LR.Automaton LR.Validator Repair.Semantics R
 Extraction Language OCaml.
 Extraction "model.ml" mkGrammar mkDump of_dump wf_grammar validS single_candidate lhs dump_no_shift_eof
   run_recover valid_repair srun scost far shift_returns strip
-  ranked_successes simplify all_min_repairs search_mirror.
+  ranked_successes simplify all_min_repairs search_mirror
+  moves allowed mcost sstep done_at next_k is_del dijkstra.
